@@ -97,6 +97,22 @@ pub fn explore(ex: &Ex) {
             ex.decode(l, "c18.wide", Ty::Claims, Entry::Slice, m);
         });
     }
+    // every registered claim name (and its neighbours) x every value shape, alone and next to
+    // another claim: only claims 1..7 are interpreted
+    {
+        use crate::refiana::Reg;
+        let labels = super::registry_labels(&[Reg::CwtClaimName]);
+        let kinds = super::kinds_plus();
+        ex.bound("c18.registry", "labels_x_kinds", json!([labels.len(), kinds.len()]));
+        par_partitions(ex.rep, labels, |lab, l| {
+            for k in &kinds {
+                for m in [map(vec![(lab.clone(), k.clone())]), map(vec![(lab.clone(), k.clone()), (t("z"), u(0))]), map(vec![(i(-70000), u(0)), (lab.clone(), k.clone())])] {
+                    l.state(1);
+                    ex.decode(l, "c18.registry", Ty::Claims, Entry::Slice, &m.det());
+                }
+            }
+        });
+    }
     for it in gen::kinds() {
         let mut l = Local::default();
         l.state(0);
